@@ -110,7 +110,8 @@ class Fixture:
             "sids": [int(x) for x in s.sample_ids], "tids": s.treatment_ids.astype(int).tolist(), "pids": [int(x) for x in s.plate_ids],
             "smap": [[stok.get(str(a), 99), int(b)] for a, b in zip(*s.sample_mapping)],
             "tmap": [[ttok.get(str(a), 99), dtok(float(b)), int(c)] for a, b, c in zip(*s.treatment_mapping)],
-            "pmap": [[ptok.get(str(a), 99), int(b)] for a, b in zip(*s.plate_mapping)],
+            # (plate name, plate id) pairs as the rows carry them; Screen.plate_mapping itself is not an observable of these properties
+            "pmap": sorted({(ptok.get(str(a), 99), int(b)) for a, b in zip(s.plate_names, s.plate_ids)}),
             "nut": int(sp.n_unique_treatments), "nus": int(sp.n_unique_samples),
             "pred": [self.predtok(b) for b in self._pred_bits(s)],
             "ctl": ttok.get(str(s.control_treatment_name), 99) if str(s.control_treatment_name) != ABSENT_CTL else self.ctl,
@@ -222,6 +223,11 @@ class World:
             st, r = outcome(s.set_observed, sel, vals)
             if st != "ok":
                 self.raised = "set_observed raised: " + r
+        elif op == "merge":
+            s = self.scr[e["h"]]
+            st, r = outcome(lambda: s.get_plate(e["a"]).merge(s.get_plate(e["b"])))
+            if st != "ok":
+                self.raised = "Plate.merge raised: " + r
         elif op == "save":
             st, r = outcome(self.scr[e["h"]].save_h5, self.fn(e["p"]))
             if st != "ok":
@@ -278,7 +284,7 @@ class World:
         ev["after"] = self.after()
         for k in ("S", "P", "sel"):
             ev.setdefault(k, [])
-        for k, d in (("h", "train"), ("p", 1), ("q", 1), ("refused", False)):
+        for k, d in (("h", "train"), ("p", 1), ("q", 1), ("refused", False), ("a", 0), ("b", 0)):
             ev.setdefault(k, d)
         ev.setdefault("meta", {})
         for k in ("sp0", "sp1", "sp2"):
@@ -294,7 +300,7 @@ def random_history(fx, rnd, tmp, length):
     for _ in range(length):
         live = [h for h in ("train", "test") if w.scr[h] is not None]
         files = [p for p in w.paths if w.fproj[p]["live"]]
-        ops = ["reveal", "reveal", "mask", "unmask", "set_observed", "save", "save"]
+        ops = ["reveal", "reveal", "mask", "unmask", "set_observed", "save", "save", "merge"]
         if not did_split and w.scr["test"] is None:
             ops += ["split", "split"]
         if files:
@@ -315,6 +321,12 @@ def random_history(fx, rnd, tmp, length):
                  "repeat": rnd.random() < 0.3}
         elif op in ("mask", "unmask"):
             e = {"op": op, "h": h}
+        elif op == "merge":
+            same = [(a, b) for a in range(s.n_plates) for b in range(s.n_plates) if a != b and s.get_plate(a).is_observed == s.get_plate(b).is_observed]
+            if not same:
+                continue
+            a, b = rnd.choice(same)
+            e = {"op": "merge", "h": h, "a": a, "b": b}
         elif op == "set_observed":
             e = {"op": "set_observed", "h": h, "P": sorted(rnd.sample(range(s.n_plates), rnd.randint(1, s.n_plates)))}
         elif op == "save":
@@ -389,7 +401,7 @@ INV = {
     "C02": ([], ["LoadIsSaved", "SaveIsCurrent"]),
     "C11": ([], ["HoldoutPartition"]),
 }
-ACTIONS = ["Split", "Reveal", "Mask", "Unmask", "SetObserved", "Save", "Load", "CliReveal", "CliMeta"]
+ACTIONS = ["Split", "Reveal", "Mask", "Unmask", "SetObserved", "MergePlates", "Save", "Load", "CliReveal", "CliMeta"]
 
 
 def lifecycle_cfg(tlc, focus, depth, export, quick=False):
@@ -416,7 +428,7 @@ def run_lifecycle(ctx, focus):
         for fi, fx in enumerate(fxs):
             fx.prepared()
             fjson = fx.to_json()
-            d = depth if fi < (2 if ctx.quick else 4) else max(2, depth - 1)
+            d = depth if fi < (1 if ctx.quick else 4) else max(2, depth - 1)
             r = ctx.tlc("Lifecycle", lifecycle_cfg(tlc, focus, d, True, quick=ctx.quick), note="fixture %s depth %d" % (fx.name, d),
                         files={"fixture.json": fjson}, env={"FIXTURE_FILE": "fixture.json"}, coverage=True, workers=8)
             if r.violation:
